@@ -1,5 +1,7 @@
 import GrafeoModel.Model.Lex2Cypher
 import GrafeoModel.Model.Lex2Sparql
+import GrafeoModel.Model.Lex2Graphql
+import GrafeoModel.Model.Lex2Gremlin
 import GrafeoModel.Driver.Proto
 import GrafeoModel.Driver.Lex
 
@@ -40,11 +42,24 @@ def showToks (ts : List Tok) : String :=
   if ts.length > maxTokens then joinWith "," ((ts.take maxTokens).map showTok ++ ["runaway"])
   else joinWith "," (ts.map showTok)
 
+/-- `char::is_alphabetic` / `char::is_numeric` restricted to the text at hand: ASCII by the ASCII
+rule, other characters by the table the op line carries -/
+def uniPred (ascii : Char → Bool) (tbl : List Nat) (c : Char) : Bool :=
+  if c.toNat < 0x80 then ascii c else tbl.contains c.toNat
+
 /-- (token list, offset width) of one language; `none` = unknown language / malformed arguments -/
 def lexOf (lang : String) (cs : List Char) (extra : List String) : Option (List Tok × (Char → Nat)) :=
   match lang, extra with
   | "cypher", [] => some (Cypher.tokenize cs, utf8Len)
   | "sparql", [] => some (Sparql.tokenize cs, utf8Len)
+  | "graphql", [a, n] => do
+    let al ← parseNatList a
+    let nu ← parseNatList n
+    some (Graphql.tokenize (uniPred Grafeo.Lex.isAlpha al) (uniPred Grafeo.Lex.isDigit nu) cs, utf8Len)
+  | "gremlin", [a, n] => do
+    let al ← parseNatList a
+    let nu ← parseNatList n
+    some (Gremlin.tokenize (uniPred Grafeo.Lex.isAlpha al) (uniPred Grafeo.Lex.isDigit nu) cs, Gremlin.w1)
   | _, _ => none
 
 def handle (args : List String) : Option Out :=
